@@ -7,7 +7,7 @@ import sys
 
 sys.path.insert(0, os.path.dirname(os.path.dirname(os.path.abspath(__file__))))
 from harness.core import main  # noqa
-from checks import dagexec_p1, realexec  # noqa
+from checks import dagexec_p1, realexec, suitetrace  # noqa
 
 
 def backup_runs(chk):
@@ -94,6 +94,7 @@ def run(chk):
         elif meta.get("exception") is None and not meta["values_equal_numpy"]:
             chk.drift.append(dict(note="values differ from NumPy although the trace is clean (C01's business)", meta=meta))
     backup_runs(chk)
+    suitetrace.run(chk, "C07")      # every computation of the repository's own tests, judged by the same monitor
     if first_ok is not None:
         realexec.selftest(chk, "C07", first_ok)
     chk.extra["executors"] = {e: sum(1 for m in metas if m["executor"] == e) for e in set(m["executor"] for m in metas)}
